@@ -60,12 +60,15 @@ AuxHashMap<A>* AuxHashMap<A>::deserialize(const void* bytes, size_t len,
   const uint32_t configKmask = (1 << lgConfigK) - 1;
 
   AuxHashMap<A>* auxHashMap;
+  typedef std::unique_ptr<AuxHashMap<A>, std::function<void(AuxHashMap<A>*)>> aux_hash_map_ptr;
+  aux_hash_map_ptr aux_ptr; // releases the map if the image is rejected below
   const uint32_t* auxPtr = static_cast<const uint32_t*>(bytes);
   if (srcCompact) {
     if (len < auxCount * sizeof(int)) {
       throw std::out_of_range("Input array too small to hold AuxHashMap image");
     }
     auxHashMap = new (ahmAlloc(allocator).allocate(1)) AuxHashMap<A>(lgArrInts, lgConfigK, allocator);
+    aux_ptr = aux_hash_map_ptr(auxHashMap, auxHashMap->make_deleter());
     for (uint32_t i = 0; i < auxCount; ++i) {
       const uint32_t pair = auxPtr[i];
       const uint32_t slotNo = HllUtil<A>::getLow26(pair) & configKmask;
@@ -73,11 +76,13 @@ AuxHashMap<A>* AuxHashMap<A>::deserialize(const void* bytes, size_t len,
       auxHashMap->mustAdd(slotNo, value);
     }
   } else { // updatable
-    uint32_t itemsToRead = 1 << lgAuxArrInts;
+    if (lgAuxArrInts > 31) throw std::invalid_argument("Possible corruption: lg size of the AuxHashMap array must not exceed 31: " + std::to_string(lgAuxArrInts));
+    uint32_t itemsToRead = 1U << lgAuxArrInts;
     if (len < itemsToRead * sizeof(uint32_t)) {
       throw std::out_of_range("Input array too small to hold AuxHashMap image");
     }
     auxHashMap = new (ahmAlloc(allocator).allocate(1)) AuxHashMap<A>(lgArrInts, lgConfigK, allocator);
+    aux_ptr = aux_hash_map_ptr(auxHashMap, auxHashMap->make_deleter());
     for (uint32_t i = 0; i < itemsToRead; ++i) {
       const uint32_t pair = auxPtr[i];
       if (pair == hll_constants::EMPTY) { continue; }
@@ -88,11 +93,10 @@ AuxHashMap<A>* AuxHashMap<A>::deserialize(const void* bytes, size_t len,
   }
 
   if (auxHashMap->getAuxCount() != auxCount) {
-    make_deleter()(auxHashMap);
     throw std::invalid_argument("Deserialized AuxHashMap has wrong number of entries");
   }
 
-  return auxHashMap;                                    
+  return aux_ptr.release();
 }
 
 template<typename A>
@@ -120,7 +124,8 @@ AuxHashMap<A>* AuxHashMap<A>::deserialize(std::istream& is, uint8_t lgConfigK,
       auxHashMap->mustAdd(slotNo, value);
     }
   } else { // updatable
-    const uint32_t itemsToRead = 1 << lgAuxArrInts;
+    if (lgAuxArrInts > 31) throw std::invalid_argument("Possible corruption: lg size of the AuxHashMap array must not exceed 31: " + std::to_string(lgAuxArrInts));
+    const uint32_t itemsToRead = 1U << lgAuxArrInts;
     for (uint32_t i = 0; i < itemsToRead; ++i) {
       const auto pair = read<int>(is);
       if (pair == hll_constants::EMPTY) { continue; }
@@ -131,7 +136,6 @@ AuxHashMap<A>* AuxHashMap<A>::deserialize(std::istream& is, uint8_t lgConfigK,
   }
 
   if (auxHashMap->getAuxCount() != auxCount) {
-    make_deleter()(auxHashMap);
     throw std::invalid_argument("Deserialized AuxHashMap has wrong number of entries");
   }
 
